@@ -203,6 +203,8 @@ def patcher_steps():
 
     out += direct_delivery()
     out += read_targets_through_filter()
+    from tx.p_c09 import temporaries_are_generated_names
+    out += share("destinations/", temporaries_are_generated_names())
     return out
 
 
